@@ -655,7 +655,17 @@ func (env *SpecEnv) evalSel(x *SExpr) *SV {
 		if isLockType(ft) {
 			return &SV{V: &Val{Loc: loc}, T: ft}
 		}
-		return &SV{V: &Val{L: e.loadLoc(st, loc)}, T: ft}
+		lv := e.loadLoc(st, loc)
+		if _, isSlice := ft.Underlying().(*types.Slice); isSlice && len(lv) == 3 && loc.Kind == LField {
+			tmpfx := env.fx
+			if tmpfx == nil {
+				tmpfx = &FnExec{e: e}
+			}
+			if tmpfx.fieldClass(loc) == "immutable" {
+				e.immArr[lv[0]] = true
+			}
+		}
+		return &SV{V: &Val{L: lv}, T: ft}
 	}
 	if _, ok := t.Underlying().(*types.Struct); ok {
 		lo, hi, ft, _, ok := e.lookupField(t, x.Name)
@@ -734,7 +744,7 @@ func (env *SpecEnv) evalIdx(x *SExpr) *SV {
 		}
 		v := &Val{}
 		for j := range e.fl.leaves(t.Elem()) {
-			v.L = append(v.L, sel(sel(e.heapGet(st, e.keyElem(t.Elem(), j)), arr), pos))
+			v.L = append(v.L, sel(sel(e.heapGet(st, e.keyElemOf(t.Elem(), j, arr)), arr), pos))
 		}
 		return &SV{V: v, T: t.Elem()}
 	}
@@ -859,6 +869,13 @@ func (env *SpecEnv) evalCall(x *SExpr) *SV {
 				out.L = append(out.L, store(m.V.L[i], k.V.L[0], v.V.L[i]))
 			}
 			return &SV{V: out, GK: m.GK, GV: m.GV}
+		case "sliceoff":
+			a := env.eval(args[0])
+			if a == nil || len(a.V.L) != 3 {
+				env.errorf("sliceoff() needs a slice")
+				return mathSV("0")
+			}
+			return mathSV(a.V.L[1])
 		case "b2i":
 			a := env.eval(args[0])
 			return mathSV(ite(a.V.L[0], "1", "0"))
@@ -913,6 +930,12 @@ func (env *SpecEnv) evalCall(x *SExpr) *SV {
 				return boolSV("false")
 			}
 			return boolSV(sel(e.heapGet(env.state(), k), a.V.L[0]))
+		case "mine":
+			a := env.eval(args[0])
+			if a == nil || len(a.V.L) != 1 {
+				return boolSV("false")
+			}
+			return boolSV(sel(e.heapGet(env.state(), e.keyMine()), a.V.L[0]))
 		case "lockinv":
 			a := env.eval(args[0])
 			if a == nil || a.V.Loc == nil {
@@ -1157,6 +1180,9 @@ func (env *SpecEnv) evalQuantIn(x *SExpr) *SV {
 		return boolSV("false")
 	}
 	st := env.state()
+	if c := x.Args[0]; c.Op == "call" && c.Args[0].Op == "id" && c.Args[0].Name == "old" && env.old != nil {
+		st = env.old // elements of the collection as it was in the old state
+	}
 	e.nq++
 	kv := fmt.Sprintf("k!b%d", e.nq)
 	q := "forall"
@@ -1171,7 +1197,7 @@ func (env *SpecEnv) evalQuantIn(x *SExpr) *SV {
 		arr, off, ln := coll.V.L[0], coll.V.L[1], coll.V.L[2]
 		elem := &Val{}
 		for j := range e.fl.leaves(t.Elem()) {
-			elem.L = append(elem.L, sel(sel(e.heapGet(st, e.keyElem(t.Elem(), j)), arr), kv))
+			elem.L = append(elem.L, sel(sel(e.heapGet(st, e.keyElemOf(t.Elem(), j, arr)), arr), kv))
 		}
 		idx := kv
 		if off != "0" {
